@@ -1,6 +1,6 @@
 CONSTANTS
   D4 = {32, 33, 34, 65534}
-  G4 = {0, 1, 2}
+  G4 = {0, 1, 65534}
   G2 = {0, 1}
   DL2 = {0, 5}
   Cases <- MCCases
